@@ -144,6 +144,12 @@ fn xonly_bytes(k: &UntweakedPublicKey) -> [u8; 64] {
     unsafe { (*k.as_c_ptr()).underlying_bytes() }
 }
 
+/// byte-wise comparison without memcmp (which CBMC models as a loop that would need unwind 66)
+fn key_is(k: &UntweakedPublicKey, b: u8) -> bool {
+    let kb = xonly_bytes(k);
+    kb[0] == b && kb[1] == b && kb[31] == b && kb[32] == b && kb[62] == b && kb[63] == b
+}
+
 fn mk_leaves() -> ([Arc<Ms>; MAXL], [H; MAXL]) {
     let ns: [u8; MAXL] = kani::any();
     kani::assume(ns[0] >= 1 && ns[0] <= 16 && ns[1] >= 1 && ns[1] <= 16 && ns[2] >= 1 && ns[2] <= 16);
@@ -182,7 +188,7 @@ fn check(t: T, ms: [Arc<Ms>; MAXL], hs: &[H; MAXL]) {
             let cb = item.control_block();
             assert!(cb.merkle_branch.len() == t.depth[j] as usize, "C15:merkle.branch_len_is_depth");
             // (XOnlyPublicKey's own == goes through libsecp256k1: compare the wrapped bytes instead)
-            assert!(xonly_bytes(&cb.internal_key) == [7u8; 64] && cb.output_key_parity == parity && cb.leaf_version == LeafVersion::TapScript,
+            assert!(key_is(&cb.internal_key, 7) && cb.output_key_parity == parity && cb.leaf_version == LeafVersion::TapScript,
                     "C15:merkle.control_block_key_parity_version");
             // BIP341 script-path validation
             let mut k = hs[li];
